@@ -14,3 +14,15 @@ Example cycle_between_callers :
   | Some (ILive 5 _ :: _), Some (IDead _ :: _) => True      (* the cycle marked the superseded record list of bucket 5 *)
   | _, _ => False end.
 Proof. vm_compute. split; [reflexivity|exact I]. Qed.
+
+(* two WRITERS of one key (and a reader of it): Put(K, v2) looks K up and appends its record; Remove(K) is scheduled but waits for the key
+   lock (its steps are no-ops); the Put re-points the entry and returns; only then the Remove looks K up - it finds v2 and removes it.
+   Without the lock this schedule made the Put fail with "key to update not found in index" (repaired: /repo 5a805be). *)
+Example same_key_writers_are_serialised :
+  let K := [18;6;7;7;7;1;1;10] in
+  let setup := [OPut K [97;97]; OFlush [7]] in
+  let s0 := run_state (init 8 1048576 1048576 false) setup in
+  let '(s', m', ps) := exec2 false (s0, spec_state false sempty setup, map QStart [QPut K [98;98]; QRemove K; QGet K])
+                             [0; 0; 1; 1; 2; 1; 0; 2; 1; 1; 1]%nat in
+  ps = [QDone ROk ROk; QDone (RBool true) (RBool true); QDone (RVal true [97;97]) (RVal true [97;97])] /\ m' [7;7;7;1;1;10] = None.
+Proof. vm_compute. split; reflexivity. Qed.
